@@ -7,7 +7,7 @@ From Coq Require Export ZArith List Bool Permutation.
 Export ListNotations.
 From GV Require Export Lpg.Model Lpg.Classes.
 From GV Require Import Lpg.ProofsBase Lpg.ProofsInv Lpg.ProofsLabel Lpg.ProofsIndex Lpg.ProofsCount
-  Lpg.ProofsAdj Lpg.ProofsDangling.
+  Lpg.ProofsAdj Lpg.ProofsDangling Lpg.ProofsZone.
 Open Scope Z_scope.
 
 (** label_index <-> node_labels, and only live nodes *)
@@ -82,6 +82,52 @@ Proof.
 Qed.
 Print Assumptions index_dead_refuted.
 
+(** min/max pruning never claims "no match" when a match exists -- for node and edge columns, all
+    six operators, every value type, nulls, overwrites, removals (outside K4: a strict comparison
+    on a column where an Int64 of magnitude >= 2^53 meets a Float64, and K5: <> on a column
+    holding, or bounded by, a value of another type or a NaN).  For <> with a Float64 query value
+    the floats of the history and the query value must be 64-bit patterns (the model keeps bit
+    patterns as unbounded integers). *)
+Theorem might_match_sound : forall b ops (node : bool) key o q,
+  let s := run (init b) ops in
+  let p := if node then nprops s else eprops s in
+  (o = OpNe -> is_float q = true -> hist_vals_wf ops /\ value_wf q) ->
+  ps_zone_class p key o q = false ->
+  ps_might_match p key o q = false -> forall n x, ps_get p n key = Some x -> sat o x q = false.
+Proof. exact might_match_sound_full. Qed.
+Print Assumptions might_match_sound.
+
+(** find_nodes_in_range (pruned through the zone map, even when it is marked dirty) = the scan *)
+Theorem range_sound : forall b ops key lo hi li hi_i,
+  let s := run (init b) ops in
+  ps_range_class (nprops s) key lo hi li hi_i = false ->
+  find_in_range s key lo hi li hi_i = scan_in_range s key lo hi li hi_i.
+Proof. exact range_sound_l. Qed.
+Print Assumptions range_sound.
+
+(** K4: Float 2^53 is the minimum, Int 2^53 compares Equal to it and is stored, query < Int 2^53+1 *)
+Theorem zone_round_refuted : exists ops key q n x,
+  let s := run (init true) ops in
+  ps_get (nprops s) n key = Some x /\ sat OpLt x q = true /\ node_might_match s key OpLt q = false /\
+  In n (scan_in_range s key None (Some q) false false) /\ find_in_range s key None (Some q) false false = [].
+Proof.
+  exists [CreateNode []; CreateNode []; SetNodeProp 0 1 (VFloat 4845873199050653696); SetNodeProp 1 1 (VInt 9007199254740992)],
+         1, (VInt 9007199254740993), 1, (VInt 9007199254740992).
+  vm_compute. repeat split; auto.
+Qed.
+Print Assumptions zone_round_refuted.
+
+(** K5: the column holds Int 1 and a NaN; <> 1 is pruned although NaN <> 1 *)
+Theorem zone_ne_refuted : exists ops key q n x,
+  let s := run (init true) ops in
+  ps_get (nprops s) n key = Some x /\ sat OpNe x q = true /\ node_might_match s key OpNe q = false.
+Proof.
+  exists [CreateNode []; CreateNode []; SetNodeProp 0 1 (VInt 1); SetNodeProp 1 1 (VFloat 9221120237041090560)],
+         1, (VInt 1), 1, (VFloat 9221120237041090560).
+  vm_compute. repeat split; auto.
+Qed.
+Print Assumptions zone_ne_refuted.
+
 (** counts = enumerations *)
 Theorem count_enum : forall b ops, let s := run (init b) ops in
   node_count s = Z.of_nat (length (node_ids s)) /\ node_count s = Z.of_nat (length (all_nodes s)) /\
@@ -132,6 +178,29 @@ Proof.
   vm_compute. repeat split; auto; discriminate.
 Qed.
 Print Assumptions dangling_refuted.
+
+(** non-vacuity of the zone-map premises: a mixed Int/Float column below 2^53 is outside both classes
+    and pruning does happen on it *)
+Example zone_scope_nonempty :
+  let ops := [CreateNode []; CreateNode []; CreateNode []; SetNodeProp 0 1 (VFloat 4612811918334230528);
+              SetNodeProp 1 1 (VInt 2); SetNodeProp 2 1 (VInt 3); SetEdgeProp 0 1 (VInt 4)] in
+  let s := run (init true) ops in
+  ps_zone_class (nprops s) 1 OpLt (VInt 2) = false /\ node_might_match s 1 OpLt (VInt 2) = false /\
+  ps_zone_class (nprops s) 1 OpGe (VFloat 4612811918334230528) = false /\ node_might_match s 1 OpGe (VFloat 4612811918334230528) = true /\
+  ps_zone_class (eprops s) 1 OpNe (VInt 4) = false /\ edge_might_match s 1 OpNe (VInt 4) = false /\
+  ps_range_class (nprops s) 1 (Some (VInt 3)) None false true = false /\ find_in_range s 1 (Some (VInt 3)) None false true = [].
+Proof. vm_compute. repeat split. Qed.
+
+(** ... and of the premise about <> with a Float64 query value: an all-Float64 column of one value *)
+Example zone_scope_float_ne :
+  let ops := [CreateNode []; CreateNode []; SetNodeProp 0 1 (VFloat 4607182418800017408); SetNodeProp 1 1 (VFloat 4607182418800017408)] in
+  let s := run (init true) ops in
+  hist_vals_wf ops /\ value_wf (VFloat 4607182418800017408) /\
+  ps_zone_class (nprops s) 1 OpNe (VFloat 4607182418800017408) = false /\
+  node_might_match s 1 OpNe (VFloat 4607182418800017408) = false.
+Proof.
+  cbv zeta. split; [repeat constructor; unfold in_u64, two64; lia|]. split; [unfold value_wf, in_u64, two64; lia|]. vm_compute. split; reflexivity.
+Qed.
 
 (** non-vacuity of the hypotheses: histories inside the scope of the theorems that exercise
     deletes, labels, edges, properties, indexes and compaction *)
